@@ -9,6 +9,7 @@ from mcommon import *
 from handler_model import *
 from p_c01 import violated
 import p_c05
+from p_c08 import derives
 
 RESP_MUT = re.compile(r"(Response::(headers_mut|status_mut|version_mut|extensions_mut|body_mut|map)|HeaderMap::(insert|append|try_insert|try_append|remove|clear|entry|try_entry|extend|drain|get_mut|iter_mut|values_mut))$")
 # sequence operations that keep every element, in order
@@ -46,6 +47,49 @@ def body_source(p, v):
             continue
         return None, chain
     return None, chain
+
+
+
+def check_relay_chain(rep, ctx):
+    """what the handler hands to HttpConnectionContext::send_request is what hyper's SendRequest of THIS connection gets, and the host's
+    answer comes back unchanged: the three crate functions in between pass the request through and return their callee's result"""
+    chain = [("HttpConnectionContext", "send_request", r"TcpConnectionContext::send_request$"),
+             ("TcpConnectionContext", "send_request", r"Client::send_request$"),
+             ("Client", "send_request", r"SendRequest::send_request$")]
+    MUT = re.compile(r"(headers_mut|uri_mut|method_mut|version_mut|body_mut|extensions_mut|into_parts|from_parts|map$|Request::new|Request::builder)")
+    for owner, meth, nxt in chain:
+        try:
+            w = ctx.method(owner, meth) + "::{closure#0}"
+        except Exception as e:
+            rep.add(Query("relay chain: %s::%s located" % (owner, meth), "inconclusive", str(e), 0, "mirsym", key="C14.relay-chain"))
+            continue
+        eng = ctx.engine(loop_bound=2)
+        paths = eng.explore(w)
+        rep.functions_encoded.append(w)
+        n_fwd = 0
+        for i, r in enumerate(paths):
+            env = origin(r.args[0])
+            req = env.child(("f", 1))
+            calls = [e for e in r.events if e.kind == "call" and re.search(nxt, e.callee)]
+            awaits = [e for e in r.events if e.kind == "await" and re.search(nxt, e.callee)]
+            if not calls:
+                # no relay on this path: it must be an error result (closed / no upstream connection)
+                ok = r.status == "return" and isinstance(r.ret, Agg) and r.ret.variant == "Err"
+                rep.add(Query("relay chain %s::%s path %d: without a relay the result is an error" % (owner, meth, i), "holds" if ok else "violated", str(r.ret)[:80], 0, "mirsym", key="C14.relay-chain.no-relay", reproduced=None))
+                continue
+            n_fwd += 1
+            touched = [e.callee for e in r.events if e.kind in ("call", "store") and MUT.search(e.callee) and e.rargs and derives(e.rargs[0], req, r.events)]
+            same_req = len(calls) == 1 and same_origin(calls[0].rargs[1], req)
+            own_sender = derives(calls[0].rargs[0], env, r.events) or any(derives(calls[0].rargs[0], e.ret, r.events) for e in r.events if e.kind == "await" and e.callee.endswith("Mutex::lock") and derives(e.rargs[0], env, r.events))
+            rep.add(Query("relay chain %s::%s path %d: the request argument is passed on as it is, once, over this connection's own sender" % (owner, meth, i),
+                          "holds" if same_req and own_sender and not touched else "violated", "same request %s, own sender %s, touched by %s" % (same_req, own_sender, touched), 0, "mirsym", key="C14.relay-chain.request", reproduced=None))
+            # the result: the awaited answer itself, or its Ok payload with only the error mapped
+            ret = r.ret
+            o = origin(ret)
+            back = bool(awaits) and (o is awaits[-1].ret or same_origin(ret, awaits[-1].ret) or (isinstance(o, Sym) and isinstance(o.tag, tuple) and o.tag[0] == "map_err" and same_origin(o.tag[1], awaits[-1].ret)))
+            rep.add(Query("relay chain %s::%s path %d: the host's answer is returned as received (only an error is wrapped)" % (owner, meth, i), "holds" if back else "violated", str(ret)[:100], 0, "mirsym",
+                          key="C14.relay-chain.response", reproduced=None))
+        rep.add(Query("witness: %s::%s has a forwarding path" % (owner, meth), "witness-hit" if n_fwd else "witness-missed", "%d" % n_fwd, 0, "mirsym"))
 
 
 def check(rep, tier, seed):
@@ -98,6 +142,7 @@ def check(rep, tier, seed):
                           "request bodies over the size limit (rejected by the RequestBodyLimit layer before the handler)"]
     rep.trusted += ["http / http-body-util / hyper crates", "mirsym", "z3"]
     import e2e
+    check_relay_chain(rep, ctx)
     e2e.confirm(rep, "C14")
     # an operation the check does not know is a violation only if the end-to-end replay confirms it; otherwise undecided (exit 2)
     for q in rep.queries:
